@@ -315,6 +315,13 @@ def data_obligations(ck):
 
     C04.data_obligations(ck)
     C05.data_obligations(ck)
+    min_tau_energy(ck)
+
+
+def min_tau_energy(ck):
+    """(shared with C07, whose kinematics need gamma > 1)"""
+    from contracts import C04
+
     # smallest reachable tau energy (cell level): a sample with u > 0 lies strictly above the last zero of the blended row; the
     # last zero index of a bilinear blend is the minimum over the corners with positive weight
     for ver in C04.VERSIONS:
